@@ -147,6 +147,11 @@ class Drive(_E2Gen):
                       if st in (FileState.CONFIRMED.value, FileState.MISSING.value)
                       and not self.detached.get(("file", l), True))
         if cand:
+            # prefer sources that an attached step consumes: the rebuild then has something to do
+            consumed = sorted({a[1] for a, b, _dy in self.d["deps"] if a[0] == "file" and a[1] in cand
+                               and b[0] == "step" and not self.detached.get(tuple(b), True)})
+            if consumed and self.rng.random() < 0.85:
+                cand = consumed
             pick = self.subset(cand, 1, 2)
             hs = []
             for p in pick:
@@ -155,9 +160,83 @@ class Drive(_E2Gen):
                 else:
                     hs.append((p, self.rng.choice([None, self.newhash(), self.newhash()])))
             pre = self.d
+            n_edit = len(self.trace)
             await self.record(("update_hashes", "EXTERNAL", tuple(hs)))
             self.marks["edit"] = (tuple(hs), pre, self.trace[-1][3], self.trace[-1][1])
+            if self.trace[-1][1] == "ok":
+                await self.rebuild()
+                self.marks["rebuild"] = (n_edit, len(self.trace))
         return True
+
+    # -- the rebuild after the edit -------------------------------------------------------------
+    async def rb_end(self, label):
+        """A job ends (success, failure, deferral).  No input changes while the command runs: the scenario
+        of the property is "edit source files, then rebuild"."""
+        rng = self.rng
+        outs = self.outputs_of(label)
+        r = rng.random()
+        if r < 0.65:
+            op = ("exec_end", label, (), "SUCCEEDED", self.success_hashes(label), True, False)
+        elif r < 0.85:
+            hs = tuple((p, rng.choice([None, self.newhash()])) for p in outs if rng.random() < 0.7)
+            op = ("exec_end", label, (), "FAILED", hs, False, False)
+        else:
+            hs = tuple((p, rng.choice([None, self.newhash()])) for p in outs if rng.random() < 0.5)
+            op = ("exec_end", label, (), "FAILED", hs, False, True)
+        self.jobs.pop(label, None)
+        await self.record(op)
+
+    async def rb_skip(self, label):
+        self.jobs.pop(label, None)
+        if self.rng.random() < 0.5:
+            await self.record(("exec_end", label, (), "SUCCEEDED", self.success_hashes(label), True, False))
+        else:
+            await self.record(("reset_to_pending", label))
+
+    async def rb_begin(self, label):
+        await self.record(("reset_for_rerun", label))
+        self.jobs[label] = "run"
+
+    async def rebuild(self, max_actions=45):
+        """The transactions of a rebuild after the edit, as the executor and the director issue them: the
+        real scheduler dispatches; a dispatched job is checked (skip or not) or run; a running step
+        declares static files, defines (new, changed, identical = recycled) and amends steps; jobs end
+        successfully, with a failure or deferred; declared static files are confirmed."""
+        rng = self.rng
+        idle = 0
+        for _ in range(max_actions):
+            await self.snapshot()
+            running = self.running()
+            run0 = [l for l, p in self.jobs.items() if p == "run0"]
+            checks = [l for l, p in self.jobs.items() if p == "check"]
+            validates = [l for l, p in self.jobs.items() if p == "validate"]
+            unconf = [l for l, s in self.fstate.items() if s == FileState.UNCONFIRMED.value
+                      and not self.detached.get(("file", l), True)]
+            cats = [("g_dispatch", 10, [()])]
+            if run0:
+                cats.append(("rb_begin", 16, [(l,) for l in run0]))
+            if running:
+                r = [(l,) for l in running]
+                cats += [("g_declare", 5, r), ("g_define", 12, r), ("g_amend", 6, r), ("rb_end", 14, r),
+                         ("g_hold", 1, r), ("g_release", 1, r)]
+                if any(self.detached.get(("step", l), False) and l in self.sstate for l in self.defs):
+                    cats.append(("g_redefine", 14, r))
+            if checks:
+                cats.append(("rb_skip", 14, [(l,) for l in checks]))
+            if validates:
+                cats.append(("g_validate", 12, [(l,) for l in validates]))
+            if unconf:
+                cats.append(("confirm_all", 12, [()]))
+            name, _, args = rng.choices(cats, weights=[c[1] for c in cats])[0]
+            n0 = len(self.trace)
+            await getattr(self, name)(*rng.choice(args))
+            if len(self.trace) == n0 and not self.jobs and not unconf:
+                idle += 1
+                if idle >= 2:
+                    break
+            else:
+                idle = 0
+        await self.finish_jobs()
 
 
 # ---------------------------------------------------------------------------------------------
